@@ -208,6 +208,17 @@ def hybrid_continue(c):
     for n in names:
         c.holds(f'{n}:same_number_of_stored_samples', len(A.samples[n]) == len(B.samples[n]) == 2)
         for k in range(2): c.eq(f'{n}:stored[{k}]_same_chain', A.samples[n][k], B.samples[n][k])
+    # the Samples objects handed out: column k of block n is the block's value after sweep k - also when the number of sweeps equals the block's
+    # dimension (2 sweeps, block 'a' of dimension 2: the stacked array is square) and when it does not (3 sweeps)
+    for sweeps in (2, 3):
+        Jq = StubJoint(c, dims); initq = {n: c.vec(f'init_{n}', dims[n]) for n in names}
+        Gq = HybridGibbs(Jq, {n: BlockSampler(c, n, initq[n]) for n in names}); Gq.sample(sweeps)
+        out = Gq.get_samples()
+        for n in names:
+            arr = np.asarray(out[n].samples)
+            c.holds(f'sweeps={sweeps}:{n}:handed_out_chain_has_one_column_per_sweep', arr.shape == (dims[n], sweeps), note=str(arr.shape))
+            if arr.shape == (dims[n], sweeps):
+                for k in range(sweeps): c.eq(f'sweeps={sweeps}:{n}:handed_out_column[{k}]_is_the_value_after_sweep_{k}', arr[:, k], np.asarray(Gq.samples[n][k]).reshape(-1))
     W = run(False)                      # warm-up followed by sampling continues the same chain
     J = StubJoint(c, dims); init = {n: c.vec(f'init_{n}', dims[n]) for n in names}
     G = HybridGibbs(J, {n: BlockSampler(c, n, init[n]) for n in names}); G.warmup(1); G.sample(1)
